@@ -192,7 +192,7 @@ def alphabet(world):
                     room = mint_room(vk, 0, False)
                     mint = dec(room * f) if room > 0 else Decimal("0.01")
                     note("mint", eth=Decimal(0), mint=mint, vault=vk, lp=False)
-                    return m.open_deposit_mint(Decimal(0), mint, vk, None)
+                    return m.open_deposit_mint(deposit_eth_amount=Decimal(0), osqth_mint_amount=mint, vault_key=vk)  # by name
                 out.append(Op(f"odm[v{i},0,{mc}]", more, mc != "half", "mint"))
 
             def dep(c, vk=vk):
@@ -213,7 +213,7 @@ def alphabet(world):
                     room = min(room, F(vv.collateral_amount))
                     amt = dec(room * wf) if room > 0 else Decimal("0.01")
                     note("withdraw", burn=Decimal(0), withdraw=amt, vault=vk)
-                    return m.burn_and_withdraw(vk, Decimal(0), amt)
+                    return m.burn_and_withdraw(vault_key=vk, osqth_burn_amount=Decimal(0), withdraw_eth_amount=amt)  # by name
                 out.append(Op(f"withdraw[v{i},{wc}]", wd, wc != "half", "withdraw"))
 
             def close(c, vk=vk):
